@@ -5,6 +5,7 @@ import (
 	"bytes"
 	"encoding/json"
 	"flag"
+	"io"
 	"io/ioutil"
 	"math/rand"
 	"os"
@@ -44,7 +45,10 @@ type ioEvent struct {
 func parseWith(format string, data []byte, sched []iox.Step) (res, digest string, items int, msg string) {
 	var s *astisub.Subtitles
 	var err error
-	r := iox.NewScripted(data, sched)
+	var r io.Reader = iox.NewScripted(data, sched)
+	if len(sched) == 1 && sched[0].K == "bytes.Reader" {
+		r = bytes.NewReader(data) // the everyday reader: seekable, fills every read
+	}
 	res, msg = run.Guard(60*time.Second, func() { s, err = readDoc(format, r) })
 	if res != "ok" {
 		return res, "", 0, msg
@@ -112,9 +116,12 @@ func cmdDeliver(args []string) error {
 		for _, f := range formats {
 			emit := func(label string, sched []iox.Step) {
 				res, dg, items, msg := parseWith(f, d.Data, sched)
-				k.put(ioEvent{First: label == "all-at-once", Kind: "deliver", Fmt: f, Doc: d.Name, Len: len(d.Data), Sched: label, Res: res, Digest: dg, Items: items, Msg: msg})
+				k.put(ioEvent{First: label == "bytes.Reader", Kind: "deliver", Fmt: f, Doc: d.Name, Len: len(d.Data), Sched: label, Res: res, Digest: dg, Items: items, Msg: msg})
 			}
 			n := len(d.Data)
+			// the reference: the document in a bytes.Reader; every other delivery goes through a plain io.Reader
+			// (no Seek, no ReadFrom) that hands the bytes out as scheduled
+			emit("bytes.Reader", []iox.Step{{N: n, K: "bytes.Reader"}})
 			emit("all-at-once", nil)
 			emit("all-with-eof", []iox.Step{{n, "eof"}})
 			emit("one-byte", iox.Chunks(n, 1))
